@@ -146,6 +146,40 @@ Definition plsr_fit_entry (p : pprm) (X Y : tensor F) : fit_outcome :=
   | _, _ => FitRaiseClean                                                     (* T.shape(.)[0] of a 0-d array *)
   end.
 
+(* a fit during which the lstsq call of component c raises (LinAlgError): the columns of components < c are complete, component c
+   has its loadings and scores written (index_update precedes lstsq) but a zero coef_ column, later columns are still zero *)
+Fixpoint fit_loop_until (inner : tensor F -> tensor F -> list (tensor F) * tensor F) (lstsq : list (list F) -> list F -> list F)
+  (c k : nat) (X Y : tensor F) (Tprev : list (list F)) : list (comp (F:=F)) :=
+  match k with
+  | O => []
+  | S k' =>
+      let lq := inner X Y in
+      let ls := fst lq in let q := snd lq in
+      let t := scores Op X ls in
+      let u := yscore Op Y q in
+      let Tc := Tprev ++ [t] in
+      match c with
+      | O => mkComp ls t q u [] :: repeat (zero_comp X Y) k'
+      | S c' => let B := lstsq Tc u in
+                mkComp ls t q u B :: fit_loop_until inner lstsq c' k' (deflate Op X ls t) (ydeflate Op Y Tc B q) Tc
+      end
+  end.
+Definition plsr_fit_entry_raising (c : nat) (p : pprm) (X Y : tensor F) : fit_outcome :=
+  match plsr_fit_entry p X Y with
+  | FitOk a =>
+      if c <? pp_ncomp p then
+        let Y2 := as_matrix Y in
+        let mx := mean0 Op X in let my := mean0 Op Y2 in
+        FitRaisePartial (mkPattrs (shape X) (shape Y2)
+          (mkPlsr mx my (fit_loop_until (inner_cp Op sqrtF init (pp_tol p) (pp_niter p)) (lstsq_ne Op ne_solve) c (pp_ncomp p)
+                                        (center Op X mx) (center Op Y2 my) [])))
+      else FitOk a                                  (* that call is never reached *)
+  | o => o                                          (* rejected, or raised before any lstsq call *)
+  end.
+
+(* a component whose coef_ column was not written *)
+Definition strip_B (c : comp (F:=F)) : comp (F:=F) := mkComp (c_load c) (c_score c) (c_yload c) (c_yscore c) [].
+
 Definition fitted_width (a : pattrs) : nat := length (comps (a_fit a)).
 (* what the recorded shapes of any fit call look like *)
 Definition attrs_shapes_ok (a : pattrs) : Prop :=
@@ -160,7 +194,7 @@ Definition plsr_predict_entry (p : pprm) (a : pattrs) (X : tensor F) : res (tens
 
 (* CP_PLSR.transform(X, Y=None): X scores over the first n_components (current value) fitted components; with Y: validation
    of Y, then the Y scores, each deflation multiplying the (n, k') X scores with a length-k column of coef_.
-   (a Y with another number of samples than X is outside the model) *)
+   a Y with another number of samples than X is accepted by NumPy's in-place broadcast only for a single X sample *)
 Definition plsr_transform_entry (p : pprm) (a : pattrs) (X : tensor F) (Yo : option (tensor F))
   : res (tensor F * option (tensor F)) :=
   let k' := pp_ncomp p in
@@ -178,8 +212,13 @@ Definition plsr_transform_entry (p : pprm) (a : pattrs) (X : tensor F) (Yo : opt
           let Y2 := as_matrix Y in
           if negb (nl_eqb (tl (a_yshape a)) (tl (shape Y2))) then Err
           else if (0 <? k') && negb (k' =? fitted_width a) then Err
-          else Ok (Tx, Some (cols_to_matrix Op (nsamp Y2)
-                     (ytransform_cols Op (center Op Y2 (Y_mean_ (a_fit a))) Tcols
+          (* Y -= (X_scores @ coef_[:, c]) q' in place: the (n_x, m) update must broadcast onto the (n_y, m) array *)
+          else if (0 <? k') && negb (nsamp X =? nsamp Y2) && negb (nsamp X =? 1) then Err
+          else
+            let Tcols' := if nsamp X =? nsamp Y2 then Tcols
+                          else map (fun col => repeat (hd (f0 Op) col) (nsamp Y2)) Tcols in    (* one sample: its row is broadcast *)
+            Ok (Tx, Some (cols_to_matrix Op (nsamp Y2)
+                     (ytransform_cols Op (center Op Y2 (Y_mean_ (a_fit a))) Tcols'
                         (firstn k' (map (c_B (F:=F)) (comps (a_fit a))))
                         (firstn k' (map (c_yload (F:=F)) (comps (a_fit a)))))))
     end.
